@@ -25,8 +25,10 @@ func (i c14IRI) String() string { return i.scheme + "://" + i.host + i.path + i.
 var (
 	c14Schemes = []string{"http", "https", "HTTPS"}
 	c14Hosts   = []string{"e.com", "E.COM", "e.com:8080", "f.org"}
-	c14Paths   = []string{"", "/", "/a", "/a/", "/A", "/a/b", "/a/./b", "/a/c/../b"}
-	c14Queries = []string{"", "?x=1", "?x=1&y=2", "?y=2&x=1", "?x=1&x=1", "?x=1&x=2", "?x=2&x=1", "?x=2"}
+	// paths: the root in five spellings (none, "/", and three that only CLEAN to the root), a segment with and without a trailing
+	// slash and in the other letter case, dot segments; queries: none and the bare "?" (both: no parameters), orders, repetitions
+	c14Paths   = []string{"", "/", "/.", "/a/..", "//", "/a", "/a/", "/A", "/a/b", "/a/./b", "/a/c/../b"}
+	c14Queries = []string{"", "?", "?x=1", "?x=1&y=2", "?y=2&x=1", "?x=1&x=1", "?x=1&x=2", "?x=2&x=1", "?x=2"}
 	c14Frags   = []string{"", "#f", "#g"}
 	c14Strings = []string{"", "-", "a", "A", "#", "#a", "://", "a#b", "?", "%zz", "%ZZ", "a b", "/", "/a", "/A", "//", "//e.com", "e.com", "E.com",
 		"e.com/a", "http:", "http:/", "http://", "HTTP://", "mailto:a@b", "MAILTO:A@B", "urn:x:1", "urn:x:2", "acct:a@e.com", "?x=1", "?x=2", "a?x=1&y=2", "a?y=2&x=1",
@@ -131,11 +133,11 @@ func c14Sig(a, b c14IRI) string {
 func init() {
 	engine.Register(&engine.Check{
 		ID: "C14", Name: "iri-equivalence", Level: "model_checking",
-		Rule: "grid scheme{http,https,HTTPS} x host{e.com,E.COM,e.com:8080,f.org} x 8 paths x 8 queries x 3 fragments ; one evaluation = one ordered pair x scheme mode, " +
+		Rule: "grid scheme{http,https,HTTPS} x host{e.com,E.COM,e.com:8080,f.org} x 11 paths (the root in five spellings) x 9 queries (none, bare ?) x 3 fragments ; one evaluation = one ordered pair x scheme mode, " +
 			"compared with the reference normaliser; plus 42 non-URL strings (all ordered pairs among them and against the grid) for reflexivity/symmetry and list membership; non-trivial = pair of different presentations",
 		Assumptions: []string{"queries in one letter case (outside the stated domain otherwise)", "net/url parsing of the grid IRIs"},
 		Bound: func(tier string) string {
-			return "complete grid of 2304 IRIs: 5.3M ordered pairs x 2 scheme modes; confusable grid of ~690 IRIs (letters that a careless case mapping identifies, percent-encoded = and & in query keys and values, ids colliding under common 32-bit hashes); host grid of 840 IRIs (IPv6 literals differing in address / case / port, explicit default ports, dot segments, query values ending in a slash): 706k ordered pairs x 2 modes; query grid of 242 IRIs (every sequence of <= 4 parameters over x=1,x=2,y=2): 58k ordered pairs x 2 modes; membership in lists of 2..65 members (equivalent member first/last) over a 384-IRI sub-grid; scale grid of 1008 long IRIs (paths ending 64/300/1100 bytes in, queries of 17/33 parameters): 1.0M ordered pairs x 2 modes; 42 strings x (42 + 2304) pairs (same in both tiers); families added after round 5: DESIGN.md 8.11"
+			return "complete grid of 3564 IRIs: 12.7M ordered pairs x 2 scheme modes; confusable grid of ~1200 IRIs (letters that a careless case mapping identifies, paths differing in their last byte after multi-byte characters, each with and without a fragment, percent-encoded = and & in query keys and values, ids colliding under common 32-bit hashes); byte grid of ~240 IRIs (every printable ASCII character and DEL as a byte of the path and as a query value: all ordered pairs); host grid of 840 IRIs (IPv6 literals differing in address / case / port, explicit default ports, dot segments, query values ending in a slash): 706k ordered pairs x 2 modes; query grid of 242 IRIs (every sequence of <= 4 parameters over x=1,x=2,y=2): 58k ordered pairs x 2 modes; membership in lists of 2..65 members (equivalent member first/last) over a 384-IRI sub-grid; scale grid of 1008 long IRIs (paths ending 64/300/1100 bytes in, queries of 17/33 parameters): 1.0M ordered pairs x 2 modes; 42 strings x (42 + 3564) pairs (same in both tiers); families added after round 5: DESIGN.md 8.11"
 		},
 		Run: c14Run,
 	})
@@ -286,10 +288,13 @@ func c14HostGrid() []c14IRI {
 func c14ConfusableGrid() []c14IRI {
 	var out []c14IRI
 	for _, p := range []string{"/~\u0130nci", "/~inci", "/~\u0131nci", "/~Inci", "/~INCI", "/\u212a", "/k", "/K", "/\u017f", "/s", "/S",
-		"/actors/\u00c9lodie", "/actors/\u00e9lodie", "/actors/\u00c9lodie/", "/actors/\u00e9lodie/", "/x/../actors/\u00c9LODIE", "/\u0416", "/\u0436/", "/\u03a3", "/\u03c3", "/\u03c2"} {
+		"/actors/\u00c9lodie", "/actors/\u00e9lodie", "/actors/\u00c9lodie/", "/actors/\u00e9lodie/", "/x/../actors/\u00c9LODIE", "/\u0416", "/\u0436/", "/\u03a3", "/\u03c3", "/\u03c2",
+		// paths that differ only in their LAST byte, after 2-, 3- and 4-byte characters: with a fragment behind them, an offset counted
+		// in characters instead of bytes cuts the difference off
+		"/\u00e91", "/\u00e92", "/\u65e5\u672c\u8a9e/1", "/\u65e5\u672c\u8a9e/2", "/\U0001f600a", "/\U0001f600b"} {
 		for _, q := range []string{"", "?a%3Db=c", "?a=b%3Dc", "?a=b=c", "?a%26b=c", "?a=b%26c", "?a=b&c=", "?a=b&c",
 			"?tag=a,b&tag=c", "?tag=a&tag=b,c", "?tag=,&tag=x", "?tag=&tag=,x", "?tag=c&tag=a,b", "?k=1&k=2,3&k=4", "?k=1,2&k=3&k=4", "?k=a%00b&k=c", "?k=a&k=%00b%00c"} {
-			out = append(out, c14IRI{"https", "e.com", p, q, ""})
+			out = append(out, c14IRI{"https", "e.com", p, q, ""}, c14IRI{"https", "e.com", p, q, "#f"})
 		}
 	}
 	for _, pr := range universe.CollidingIDs() {
@@ -304,8 +309,29 @@ func c14ConfusableGrid() []c14IRI {
 	return out
 }
 
+// c14ByteGrid: every printable ASCII character (and DEL) that does not change the structure of a URL, as one byte of the path
+// (under two spellings of the host) and - letters excepted, see the assumptions - as a query value: only the 26 letter pairs
+// are the same ignoring case; a fold done with bit tricks also identifies @ and `, [ and {, \ and |, ] and }, ^ and ~, _ and DEL.
+func c14ByteGrid() []c14IRI {
+	var out []c14IRI
+	for ch := byte(0x21); ch <= 0x7f; ch++ {
+		if strings.IndexByte("#?%/", ch) >= 0 {
+			continue
+		}
+		for _, h := range []string{"e.com", "E.COM"} {
+			out = append(out, c14IRI{"https", h, "/u/" + string(ch) + "x", "", ""})
+		}
+		letter := ch >= 'a' && ch <= 'z' || ch >= 'A' && ch <= 'Z'
+		if !letter && strings.IndexByte("&=+;", ch) < 0 {
+			out = append(out, c14IRI{"https", "e.com", "/q", "?k=" + string(ch), ""})
+		}
+	}
+	return out
+}
+
 func c14Run(c *engine.Ctx) {
 	c14RunGrid(c, c14ConfusableGrid(), "confusable-grid")
+	c14RunGrid(c, c14ByteGrid(), "byte-grid")
 	c14RunGrid(c, c14HostGrid(), "host-grid")
 	c14RunGrid(c, c14Grid(c.Quick()), "grid")
 	c14RunGrid(c, c14ScaleGrid(), "scale-grid")
